@@ -402,6 +402,10 @@ func checkC07(c *Ctx) {
 		}
 		c.Fail(Finding{Sig: "imports-" + res.Violated, Input: it.Key, What: fmt.Sprintf("predicate %s of ImportsTrace.tla fails on the restored output: %s", res.Violated, truncate(string(it.Trace), 500)), Replay: it.Replay})
 	})
+	// one import-managing Decorator / Restorer / FileRestorer for several files (Reuse.tla)
+	if !c07Reuse(c) {
+		return
+	}
 	c.Set("rule", "case = one import configuration (existing specs and aliases, overrides, used paths, block shape) restored by the real FileRestorer and re-parsed; non-trivial = some used path has an alias or override; distinct by configuration")
 }
 
